@@ -92,13 +92,24 @@ func c09Plan(seed int64, tier string) []core.Case {
 						}
 						for k := 1; k <= top; k += step {
 							for _, d := range delays {
-								c := core.Case{Kind: "reader", Seed: core.SubSeed(seed, "c09r", wl, rd, cch, br, k, mode, d),
-									S: map[string]string{"wl": wl}, P: map[string]int64{"rd": rd, "cache": cch, "byter": br, "k": int64(k), "mode": mode, "delay": d, "fseed": seed}}
-								if i%9 == 0 && tier == "thorough" || i%40 == 0 {
-									c.Race = true
+								// with read-ahead the outcome depends on the schedule: repeat
+								// the case under several hook schedules
+								reps := 1
+								if rd > 1 {
+									reps = 2
+									if tier == "thorough" {
+										reps = 6
+									}
 								}
-								i++
-								cs = append(cs, c)
+								for rep := 0; rep < reps; rep++ {
+									c := core.Case{Kind: "reader", Seed: core.SubSeed(seed, "c09r", wl, rd, cch, br, k, mode, d, rep),
+										S: map[string]string{"wl": wl}, P: map[string]int64{"rd": rd, "cache": cch, "byter": br, "k": int64(k), "mode": mode, "delay": d, "fseed": seed, "rep": int64(rep)}}
+									if i%9 == 0 && tier == "thorough" || i%40 == 0 {
+										c.Race = true
+									}
+									i++
+									cs = append(cs, c)
+								}
 							}
 						}
 					}
@@ -513,7 +524,7 @@ func c09Reader(r *core.Result, c core.Case) {
 	}
 	cfg := fmt.Sprintf("reader workload=%s rd=%d cache=%v bytereader=%v fault at underlying call %d mode=%s delay=%dms", wl, rd, cch == 1, br == 1, k, []string{"error", "partial+error", "seek-error"}[mode], c.Int("delay"))
 	c09DriveReader(r, cfg, wl, f, src, rd, cch, core.SubSeed(fseed, "hist", wl), fr)
-	r.FP = core.Hash(cfg)
+	r.FP = core.Hash(cfg, c.Int("rep"))
 	r.Nontrivial = fr.Hit
 	if fr.Hit {
 		r.Count("reader_faults_hit", 1)
@@ -525,7 +536,7 @@ func c09Reader(r *core.Result, c core.Case) {
 
 func c09Run(c core.Case) *core.Result {
 	r := core.NewResult()
-	t := mon.Begin(c.Seed, int(c.Seed%3))
+	t := mon.Begin(c.Seed, int(c.Seed%4))
 	defer mon.End()
 	if c.Kind == "writer" {
 		c09Writer(r, c)
